@@ -74,11 +74,11 @@ Section QasmProofs.
     Hypothesis Odd : r * r = - z1.
     Ltac closeO := close_with ltac:(ring [U Odd qh2 qi2 qs22]).
     Theorem qasm_rule_cz : spec_CZPow O r rc g = mscale O g (q_cz O).
-    Proof. mat_entries closeO. Qed.
+    Proof. unfold q_cz. rewrite q_h_lit. mat_entries closeO. Qed.
     Theorem qasm_rule_cx : spec_CXPow O r rc g = mscale O g (q_CX O).
     Proof. mat_entries closeO. Qed.
     Theorem qasm_rule_cy : spec_CYPow O r rc g = mscale O g (q_cy O).
-    Proof. mat_entries closeO. Qed.
+    Proof. unfold q_cy, q_sdg, q_s. rewrite !q_u1_lit. mat_entries closeO. Qed.
   End Units.
 
   (* ---- the remaining special exponents ---- *)
@@ -108,10 +108,10 @@ Section QasmProofs.
   Proof. mat_entries close. Qed.
   Theorem qasm_rule_ccz g :
     spec_CCZPow O ii (- ii) g = mscale O g (body_unitary O 3 [(q_h O, [2]); (q_ccx O, [0; 1; 2]); (q_h O, [2])]).
-  Proof. mat_entries close. Qed.
+  Proof. rewrite q_h_lit. mat_entries close. Qed.
   Theorem qasm_rule_ccy g :
     spec_CCYPow O ii (- ii) g = mscale O g (body_unitary O 3 [(q_sdg O, [2]); (q_ccx O, [0; 1; 2]); (q_s O, [2])]).
-  Proof. mat_entries close. Qed.
+  Proof. unfold q_sdg, q_s. rewrite !q_u1_lit. mat_entries close. Qed.
   Theorem qasm_rule_cswap : spec_CSwap O = q_cswap O.
   Proof. reflexivity. Qed.
 
@@ -156,20 +156,20 @@ Section QasmProofs.
   Theorem qasm_rule_ctrl_x : ctrl_matrix O [2] [[1]] (spec_XPow O ii (- ii) z1) = q_CX O.
   Proof. mat_entries close. Qed.
   Theorem qasm_rule_ctrl_y : ctrl_matrix O [2] [[1]] (spec_YPow O ii (- ii) z1) = q_cy O.
-  Proof. mat_entries close. Qed.
+  Proof. unfold q_cy, q_sdg, q_s. rewrite !q_u1_lit. mat_entries close. Qed.
   Theorem qasm_rule_ctrl_z : ctrl_matrix O [2] [[1]] (spec_ZPow O ii (- ii) z1) = q_cz O.
-  Proof. mat_entries close. Qed.
+  Proof. unfold q_cz. rewrite q_h_lit. mat_entries close. Qed.
 
   (* ---- closed forms of the two-qubit library gates ---- *)
   Lemma q_CXr_lit : q_CXr O = [[z1; z0; z0; z0]; [z0; z0; z0; z1]; [z0; z0; z1; z0]; [z0; z1; z0; z0]].
   Proof. mat_entries close. Qed.
-  Lemma q_cz_lit : q_cz O = mdiag O [z1; z1; z1; - z1]. Proof. mat_entries close. Qed.
+  Lemma q_cz_lit : q_cz O = mdiag O [z1; z1; z1; - z1]. Proof. unfold q_cz. rewrite q_h_lit. mat_entries close. Qed.
   Lemma q_swap_lit : q_swap O = [[z1; z0; z0; z0]; [z0; z0; z1; z0]; [z0; z1; z0; z0]; [z0; z0; z0; z1]].
   Proof. mat_entries close. Qed.
   Lemma q_crz_lit a ac : a * ac = z1 -> q_crz O a ac = mdiag O [z1; z1; ac; a].
-  Proof. intros U. mat_entries ltac:(close_with ltac:(ring [U qh2 qi2 qs22])). Qed.
+  Proof. intros U. unfold q_crz. rewrite !q_u1_lit. mat_entries ltac:(close_with ltac:(ring [U])). Qed.
   Lemma q_cu1_lit a ac : a * ac = z1 -> q_cu1 O a ac = mdiag O [z1; z1; z1; a * a].
-  Proof. intros U. mat_entries ltac:(close_with ltac:(ring [U qh2 qi2 qs22])). Qed.
+  Proof. intros U. unfold q_cu1. rewrite !q_u1_lit. mat_entries ltac:(close_with ltac:(ring [U])). Qed.
 
   (* the special exponents of XPowGate at global shift 0 *)
   Theorem qasm_rule_x : spec_XPow O ii (- ii) z1 = q_x O.
